@@ -144,6 +144,13 @@ func Spellings(tab []Fam) []Spelling {
 			}
 		}
 	}
+	// the display name pprof prints for a unit (and feeds back as the target unit of a report) is a
+	// spelling of that unit, exactly as written
+	for fi, f := range tab {
+		for ui, u := range f.Units {
+			add(u.Display, Ref{fi, ui}, u.Aliases[0], "display")
+		}
+	}
 	return out
 }
 
@@ -152,7 +159,7 @@ func Spellings(tab []Fam) []Spelling {
 // listed alias (U+03BC GREEK SMALL LETTER MU).
 func UnknownSpellings() []Spelling {
 	var out []Spelling
-	for _, s := range []string{"", "foo", "count", "sample", "unit", "bar", "k", "m", "min", "minute", "hrss", "kbb", " ms", "n*GCU", "µs", "bytess"} {
+	for _, s := range []string{"", "foo", "count", "sample", "unit", "bar", "k", "m", "min", "minute", "hrss", "kbb", " ms", "n*gcus", "µs", "bytess"} {
 		out = append(out, Spelling{S: s, Ref: unknown, Form: "unknown"})
 	}
 	return out
